@@ -78,8 +78,25 @@ func funcDecl(rel, name string) *ast.FuncDecl {
 	if f == nil {
 		return nil
 	}
+	// "Recv.name" selects the method of that receiver type (pointer or value)
+	recv := ""
+	if i := strings.Index(name, "."); i >= 0 {
+		recv, name = name[:i], name[i+1:]
+	}
 	for _, d := range f.f.Decls {
 		if fd, ok := d.(*ast.FuncDecl); ok && fd.Name.Name == name {
+			if recv != "" {
+				if fd.Recv == nil || len(fd.Recv.List) != 1 {
+					continue
+				}
+				t := fd.Recv.List[0].Type
+				if st, ok := t.(*ast.StarExpr); ok {
+					t = st.X
+				}
+				if id, ok := t.(*ast.Ident); !ok || id.Name != recv {
+					continue
+				}
+			}
 			return fd
 		}
 	}
